@@ -29,7 +29,7 @@ COLS = {
 
 
 def _mk_exec(name: str) -> pyvc.Exec:
-    ex = pyvc.Exec(consts=extract.module_constants(TR), name=name)
+    ex = pyvc.Exec(consts={**extract.module_constants("hta.common.trace_filter"), **extract.module_constants(TR)}, name=name)
     fv.install(ex)
     fv.install_symtab(ex)
     _, tree = extract.load_module(TF)
@@ -206,6 +206,28 @@ def _case(seed: int) -> Dict[str, Any]:
                 diff = {i: (got.get(i), exp.get(i)) for i in set(got) | set(exp) if got.get(i) != exp.get(i)}
                 fails.append({"what": "links_match_oracle", "input": {"seed": seed, "rank": rk, "events": evs},
                               "observed": {str(k): v[0] for k, v in list(diff.items())[:6]}, "expected": {str(k): v[1] for k, v in list(diff.items())[:6]}})
+            # the same events under ANOTHER numbering of the symbols: the synchronisation names get the smallest ids (0, 1), as happens
+            # for some hash seeds / vocabularies; the links do not depend on which number a name carries
+            from hta.common.trace import transform_correlation_to_index
+            from hta.common.trace_symbol_table import TraceSymbolTable
+
+            stab0 = t.symbol_table.get_sym_table()
+            first = [x for x in ("Event Sync", "Context Sync") if x in stab0]
+            if first:
+                st2 = TraceSymbolTable()
+                st2.add_symbols(first + [x for x in stab0 if x not in first])
+                df2 = df.drop(columns=["index_correlation"]).copy()
+                for col in ("name", "cat"):
+                    df2[col] = [st2.sym_index[stab0[int(v)]] for v in df2[col]]
+                try:
+                    out2 = rt.lib(fails, "transform_correlation_to_index(renumbered)", {"seed": seed, "rank": rk, "events": evs}, transform_correlation_to_index, df2, st2)
+                    got2 = {int(i): int(v) for i, v in zip(out2["index"], out2["index_correlation"])}
+                    if got2 != exp:
+                        diff = {i: (got2.get(i), exp.get(i)) for i in set(got2) | set(exp) if got2.get(i) != exp.get(i)}
+                        fails.append({"what": "links_do_not_depend_on_symbol_numbering", "input": {"seed": seed, "rank": rk, "events": evs, "ids": {x: st2.sym_index[x] for x in first}},
+                                      "observed": {str(k): v[0] for k, v in list(diff.items())[:6]}, "expected": {str(k): v[1] for k, v in list(diff.items())[:6]}})
+                except rt.LibFailure:
+                    pass
             from hta.common.trace import get_cpu_gpu_correlation
 
             cg = get_cpu_gpu_correlation(df.set_index("index", drop=False))
